@@ -1262,15 +1262,15 @@ class KVDef(EntAttribute):
         if self.reportable:
             file.write('report ')
 
-        if self._type is not ValueTypes.SPAWNFLAGS:
-            # Spawnflags never use names!
-            file.write(': ')
-            _write_longstring(file, custom_syntax, self.disp_name, indent='\t')
-
         default = self.default
         if not default and self.type is ValueTypes.BOOL:
             # This has to be present.
             default = '0'
+
+        if self._type is not ValueTypes.SPAWNFLAGS or default or self.desc:
+            # Spawnflags never use names! But one has to be there if a default or description follow.
+            file.write(': ')
+            _write_longstring(file, custom_syntax, self.disp_name, indent='\t')
 
         if default:
             default_str = str(default)
